@@ -27,7 +27,7 @@ type c07 struct{}
 func (c07) ID() string    { return "C07" }
 func (c07) Level() string { return "exploration" }
 func (c07) Rule() string {
-	return "cases = CNF problems read by explain.ParseCNF: T2 (n=2, dirty clauses: empty, repeated literals, tautologies; <=3 clauses), all S3 multisets of <=4 clauses (5 thorough), S4 multisets, and the 'cores' family (unions of two minimal cores that overlap or are disjoint, plus one redundant clause, in several clause orders, with repeated clauses and trivially conflicting units) x method {MUS, MUSDeletion, MUSInsertion, MUSMaxSat} x heuristic choice list (<=1 deviation across the dozens of solver calls of one extraction). Oracle: satisfiable input => error and nil result; unsatisfiable => result is a sub-multiset of the input, unsatisfiable by truth table, and removing any single clause makes it satisfiable; the receiver's Clauses/NbVars/NbClauses are deep-equal to their values before the call, and a second extraction on the same Problem value (every ordered pair of methods, on T2 with <=2 clauses, S3 with <=3 clauses — satisfiable problems included: an error both times —, the cores and conflict-rich families) is judged by the same oracle. Non-trivial = the input is unsatisfiable and has more clauses than the returned MUS."
+	return "cases = CNF problems read by explain.ParseCNF: T2 (n=2, dirty clauses: empty, repeated literals, tautologies; <=3 clauses), all S3 multisets of <=4 clauses (5 thorough), S4 multisets, and the 'cores' family (unions of two minimal cores that overlap or are disjoint, plus one redundant clause, in several clause orders, with repeated clauses and trivially conflicting units) x method {MUS, MUSDeletion, MUSInsertion, MUSMaxSat} x heuristic choice list (<=1 deviation across the dozens of solver calls of one extraction). Oracle: satisfiable input => error and nil result; unsatisfiable => result is a sub-multiset of the input, unsatisfiable by truth table, and removing any single clause makes it satisfiable; the receiver's Clauses/NbVars/NbClauses are deep-equal to their values before the call, and a second extraction on the same Problem value (every ordered pair of methods, on T2 with <=2 clauses, S3 with <=3 clauses — satisfiable problems included: an error both times —, the cores and conflict-rich families) is judged by the same oracle, and so is an extraction applied to the problem the first extraction returned. Non-trivial = the input is unsatisfiable and has more clauses than the returned MUS."
 }
 func (c07) Assumptions() []string {
 	return []string{"truth-table reference is correct", "problems are built through explain.ParseCNF from a canonical DIMACS rendering with exact header counts"}
@@ -369,6 +369,30 @@ func (c07) Exec(cc core.Case, r *core.Rec) []core.Failure {
 				f.Sig += "/" + musTrigger(c.F)
 			}
 			fs = append(fs, f)
+		}
+		if c.Then != "" && len(fs) == 0 {
+			// the returned problem is a CNF problem in its own right: an extraction applied to IT must be right too
+			// (for a MUS: it is its own only unsatisfiable subset)
+			in2 := copyCNF(res.Clauses)
+			var res3 *explain.Problem
+			var err3 error
+			pn3, ab3 := guard(func() { res3, err3 = runMUS(res, c.Then) })
+			pre := c.Then + "/on-the-problem-returned-by-" + c.Method
+			switch {
+			case pn3 != "":
+				fs = append(fs, core.Failure{Sig: pre + "/panic@" + lastPanicSite, Detail: pn3})
+			case ab3:
+				fs = append(fs, core.Failure{Sig: pre + "/nontermination"})
+			case err3 != nil:
+				fs = append(fs, core.Failure{Sig: pre + "/error-on-unsatisfiable", Detail: err3.Error()})
+			case res3 == nil:
+				fs = append(fs, core.Failure{Sig: pre + "/nil-result"})
+			default:
+				fs = append(fs, judgeSubset(pre, in2, c.N, res3, true)...)
+			}
+			if len(fs) > 0 {
+				return fs
+			}
 		}
 		if c.Then == "" || len(fs) > 0 {
 			return fs
